@@ -2,3 +2,7 @@
 #[allow(unused_extern_crates)]
 extern crate std;
 include!("/verif/harness/common/drive.rs");
+
+#[cfg(any(verif_all, verif_c43))]
+#[path = "/verif/harness/statime-algo/c43.rs"]
+mod c43;
